@@ -131,6 +131,23 @@ struct Interp {
       if (f == "str") { RVal a = eval(env, e["args"][0]); if (a.t == RVal::Int) return RVal::S(std::to_string(a.i)); if (a.t == RVal::Str) return a; if (a.t == RVal::Bool) return RVal::S(a.b ? "TRUE" : "FALSE"); throw Unsupported{"str of that type"}; }
       if (f == "strlen") { RVal a = eval(env, e["args"][0]); need(a, RVal::Str, "strlen"); return RVal::I((long long)a.s.size()); }
       if (f == "isnull") { RVal a = eval(env, e["args"][0]); return RVal::B(a.t == RVal::Null); }
+      if (f == "upper" || f == "lower" || f == "trim" || f == "ltrim" || f == "rtrim") {
+        RVal a = eval(env, e["args"][0]); need(a, RVal::Str, f.c_str()); std::string t = a.s;
+        auto ws = [](char c) { return c == ' ' || c == '\t' || c == '\n' || c == '\r' || c == '\f' || c == '\v'; };
+        if (f == "upper") for (auto& c : t) { if (c >= 'a' && c <= 'z') c = (char)(c - 32); }
+        if (f == "lower") for (auto& c : t) { if (c >= 'A' && c <= 'Z') c = (char)(c + 32); }
+        if (f == "trim" || f == "ltrim") { size_t i = 0; while (i < t.size() && ws(t[i])) ++i; t.erase(0, i); }
+        if (f == "trim" || f == "rtrim") { while (!t.empty() && ws(t.back())) t.pop_back(); }
+        return RVal::S(t); }
+      // a null second or third operand: the implementation hands the string through; the generator never observes the result of such a call, only its operands
+      if ((f == "substr" || f == "lsubstr" || f == "rsubstr") && e["args"].size() >= 2) { bool nullarg = false; for (size_t i = 1; i < e["args"].size(); ++i) if (e["args"][i].value("k", "") == "null") nullarg = true; if (nullarg) { RVal a = eval(env, e["args"][0]); need(a, RVal::Str, "substr"); return a; } }
+      if (f == "replace" && e["args"][1].value("k", "") == "null") { RVal a = eval(env, e["args"][0]); need(a, RVal::Str, "replace"); return a; }
+      if (f == "substr") { RVal a = eval(env, e["args"][0]); need(a, RVal::Str, "substr"); RVal b = eval(env, e["args"][1]); need(b, RVal::Int, "substr"); long long c = (long long)a.s.size(), n = c;
+        if (e["args"].size() > 2) { RVal x = eval(env, e["args"][2]); need(x, RVal::Int, "substr"); n = x.i; }
+        if (b.i < 0 || b.i > 1000000 || n < 0 || n > 1000000) throw Unsupported{"substr outside the modelled range"};
+        if (b.i >= c) return RVal::S(""); return RVal::S(a.s.substr((size_t)b.i, (size_t)std::min(n, c - b.i))); }
+      if (f == "replace") { RVal a = eval(env, e["args"][0]); need(a, RVal::Str, "replace"); RVal b = eval(env, e["args"][1]); need(b, RVal::Str, "replace"); RVal c = eval(env, e["args"][2]); need(c, RVal::Str, "replace");
+        if (b.s.empty()) return a; std::string t; size_t p = 0; while (true) { size_t q = a.s.find(b.s, p); if (q == std::string::npos) { t += a.s.substr(p); break; } t += a.s.substr(p, q - p) + c.s; p = q + b.s.size(); } return RVal::S(t); }
       throw Unsupported{"builtin " + f};
     }
     if (k == "item") { RVal o = eval(env, e["o"]); if (o.t != RVal::Tup) throw Unsupported{"item of non tuple"}; long i = e["i"].get<long>(); if (i < 1 || (size_t)i > o.items.size()) throw Unsupported{"item rank"}; return o.items[i - 1]; }
@@ -154,7 +171,7 @@ struct Interp {
       if (m == "me") return recv;
       throw Unsupported{"vf method " + m};
     }
-    if (k == "err") { if (error_stack.empty()) throw Unsupported{"error@ outside a handler"}; long i = e["i"].get<long>(); const RErr& er = error_stack.back(); if (i == 1) return RVal::S(er.code == 1 ? er.name : throwable_name(er.code)); if (i == 3) return RVal::I(er.code); throw Unsupported{"error@2 (message text is not modelled)"}; }
+    if (k == "err") { long i = e["i"].get<long>(); if (error_stack.empty()) { if (i == 3) return RVal::I(0); return RVal::S(""); }   /* outside a handler the error tuple is ("", "", 0) */ const RErr& er = error_stack.back(); if (i == 1) return RVal::S(er.code == 1 ? er.name : throwable_name(er.code)); if (i == 3) return RVal::I(er.code); throw Unsupported{"error@2 (message text is not modelled)"}; }
     if (k == "mth") return method(env, e);
     if (k == "setitem") {
       // o.set@i(e): o must be a variable
@@ -178,13 +195,14 @@ struct Interp {
     bool isvar = e["o"].value("k", "") == "var";
     if (m == "count") { RVal o = eval(env, e["o"]); if (o.t == RVal::Tab || o.t == RVal::Tup) return RVal::I((long long)o.items.size()); if (o.t == RVal::Str) return RVal::I((long long)o.s.size()); throw Unsupported{"count"}; }
     if (m == "at") { RVal o = eval(env, e["o"]); RVal i = eval(env, e["args"][0]); if (o.t == RVal::Str) { if (i.t == RVal::Null) throw RErr{22, ""}; need(i, RVal::Int, "at"); if (i.i < 0 || (size_t)i.i >= o.s.size()) throw RErr{22, ""}; return RVal::I((unsigned char)o.s[i.i]); } if (o.t != RVal::Tab) throw Unsupported{"at on non table"}; if (i.t == RVal::Null) throw RErr{22, ""}; need(i, RVal::Int, "at"); if (i.i < 0 || (size_t)i.i >= o.items.size()) throw RErr{22, ""}; return o.items[i.i]; }
-    if (!isvar) throw Unsupported{"in-place method on a temporary"};
-    std::string n = upper(e["o"]["n"].get<std::string>());
-    { RVal& o = lookup(env, n);
-      if (o.t == RVal::Str && m == "concat") { RVal a = eval(env, e["args"][0]); RVal& oo = lookup(env, n); if (a.t == RVal::Str) oo.s += a.s; else if (a.t == RVal::Int) { if (a.i < 0 || a.i > 255) throw RErr{21, ""}; oo.s.push_back((char)a.i); } else throw Unsupported{"string concat argument"}; return oo; }
+    // the receiver: a variable (mutated in place) or a temporary (a fresh value that nothing else can see)
+    std::string n = isvar ? upper(e["o"]["n"].get<std::string>()) : std::string(); RVal tmp; if (!isvar) tmp = eval(env, e["o"]);
+    auto target = [&]() -> RVal& { return isvar ? lookup(env, n) : tmp; };
+    { RVal& o = target();
+      if (o.t == RVal::Str && m == "concat") { RVal a = eval(env, e["args"][0]); RVal& oo = target(); if (a.t == RVal::Str) oo.s += a.s; else if (a.t == RVal::Int) { if (a.i < 0 || a.i > 255) throw RErr{21, ""}; oo.s.push_back((char)a.i); } else throw Unsupported{"string concat argument"}; return oo; }
       if (o.t != RVal::Tab) throw Unsupported{m + " on non table"}; }
     std::vector<RVal> a; for (auto& x : e["args"]) a.push_back(eval(env, x));
-    RVal& o = lookup(env, n);
+    RVal& o = target();
     // an argument of the element type, a null (typed like the element or untyped) or - for integer tables - a decimal
     auto coerce = [&](RVal& v) {
       if (v.t == RVal::Null) { if (v.elem == o.elem || v.elem == "undefined" || (o.elem == "integer" && v.elem == "decimal")) { v = RVal::N(o.elem); return; } throw Unsupported{m + ": null of another type"}; }
@@ -208,6 +226,8 @@ struct Interp {
     Env callee; callee.depth = env.depth + 1;
     size_t i = 0;
     for (auto& p : f["params"]) { RVal v = eval(env, e["args"][i++]); callee.vars[upper(p["n"].get<std::string>())] = v; }
+    // a function runs in its own context: the error being handled by the caller is not visible in the callee
+    std::vector<RErr> saved; saved.swap(error_stack); struct Restore { std::vector<RErr>& cur; std::vector<RErr>& old; ~Restore() { cur.swap(old); } } restore{error_stack, saved};
     Flow fl = block(callee, f["body"]); (void)fl;
     if (callee.has_returned) return callee.returned;
     return RVal::N("undefined");
